@@ -82,3 +82,9 @@ chk("C04", "other",
     "Real-arithmetic model with constrained sin/cos pairs and acos/cos cancellation for |q|<=1; inverse as adjugate/determinant; indexing.ubitoB (cholesky), xfab's Rodrigues vector and numba's gufunc broadcasting are outside the claim; the stretch obligations (B^T B (1,2), U^T U = I) are reported separately and may stay undecided.",
     "symbolic execution of the Python / numba py_func source (pysym) + z3 NRA validity queries with cut-point staging; bounded history exploration of the cache; counterexamples replayed on the real objects", "DESIGN.md 3/C04", "pysym")
 del NA["C04"]
+
+chk("C10", "other",
+    "Unbounded z3 NRA validity queries over the real finite-strain code executed symbolically (pysym): with the deformation gradient cut to F = R.S0 (symbolic symmetric stretch, rotation Rx.Ry.Rz from constrained sin/cos pairs) the even-exponent Seth-Hill tensors equal (S0^2m - I)/2m in the reference frame and R.E.R^T in the lab frame for every rotation, are symmetric and vanish for S0 = I; F = ubi^T.ub0^T wiring; grain wrappers pass a reference grain's UB; with numpy's svd as a contract stub the SVD routes are shown to build the textbook polar decomposition and the Biot / 3/2 / logarithmic tensors from its factors; the tensor_map kernels feed the same F (their inlined B copy equals unitcell.B) and post-process identically; frame rotations and e6 packing; TensorMap's derived strain routes rotate in the right direction.",
+    "Real-arithmetic model; svd contract and the polar-decomposition theorem trusted; m = -1, -0.5 (matrix inverses) and 'first-order agreement for all m' not covered; the monolithic rotation round trip is a stretch obligation.",
+    "symbolic execution of the Python / numba py_func source (pysym) + z3 NRA validity queries with cut-point staging and contract stubs; replay against an eigen-decomposition Seth-Hill reference on the real code", "DESIGN.md 3/C10", "pysym")
+del NA["C10"]
